@@ -3,6 +3,8 @@
 package scheduler
 
 import (
+	"strings"
+
 	"github.com/apache/yunikorn-core/pkg/common/configs"
 	"github.com/apache/yunikorn-core/pkg/common/security"
 	"github.com/apache/yunikorn-core/pkg/scheduler/objects"
@@ -43,7 +45,8 @@ func VerifC17_AddApplicationACL() {
 	pc, err := newPartitionContext(conf, "rm-1", nil, false)
 	vAssert(err == nil && pc != nil, "world: partition created")
 	user := vStr("user", "u1", "u2")
-	want := vStr("queue", "root.default", "root.open", "root.unknown", "root.par", "root.par.dyn", "", "root.@recovery@")
+	want := vStr("queue", "root.default", "root.open", "root.unknown", "root.par", "root.par.dyn", "", "root.@recovery@", "root.DEFAULT", "root.Par")
+	wantL := strings.ToLower(want) // queue names are case-insensitive
 	vSplit("queue")
 	vSplit("user")
 	vSplit("root.submitacl")
@@ -78,7 +81,7 @@ func VerifC17_AddApplicationACL() {
 		}
 		vAssert(allowed, "A an accepted application's user has submit access on the queue or an ancestor")
 		if qp == "root.par.dyn" || qp == "root.unknown" {
-			vAssert(create && want == qp, "A a queue that did not exist is created only by a rule with create enabled, for the name the rule produced")
+			vAssert(create && wantL == qp, "A a queue that did not exist is created only by a rule with create enabled, for the name the rule produced")
 			vAssert(!q.IsManaged(), "A a rule-created queue is a dynamic queue")
 		} else {
 			vAssert(qp == "root.default" || qp == "root.open", "A an application is only placed in a configured leaf or a rule-created one")
@@ -86,6 +89,14 @@ func VerifC17_AddApplicationACL() {
 	} else {
 		vAssert(pc.getApplication("app-1") == nil, "A a rejected application leaves no trace in the partition")
 		vAssert(pc.GetQueue("root.default").GetApplication("app-1") == nil && pc.GetQueue("root.open").GetApplication("app-1") == nil, "A a rejected application is in no queue")
+	}
+	// whatever happened, the configured queues are what the configuration says they are
+	par := pc.GetQueue("root.par")
+	vAssert(par != nil && !par.IsLeafQueue() && par.IsManaged(), "A a configured parent queue is never replaced by a rule-created leaf, however the requested name is spelled")
+	def := pc.GetQueue("root.default")
+	vAssert(def != nil && def.IsLeafQueue() && def.IsManaged(), "A a configured leaf queue is never replaced by a rule-created one")
+	if aerr == nil && wantL == "root.default" && app.GetQueuePath() != "root.@recovery@" { // a forced application without access ends in the recovery queue
+		vAssert(app.GetQueuePath() == "root.default" && def.GetApplication("app-1") == app, "A a requested name that only differs in case from an existing queue resolves to that queue")
 	}
 	vReach("end")
 }
